@@ -5,6 +5,9 @@ from corelib import mc_consts
 PID = "C03"
 
 
+REL = dict(ents=("e1", "e2"), kinds=("spawn", "relate", "unrelate", "despawn"), comps=("A",), ticks=2, idle=1, cframes=2)
+
+
 def main(tier, seed, replay):
     if replay:
         return C.replay_file(PID, replay)
@@ -18,9 +21,13 @@ def main(tier, seed, replay):
         tr = k.validate_profile("core", 150)
         k.validate_profile("vis_black", 80)
         k.validate_profile("vis_white", 80)
-        k.validate_profile("rel", 350, monitors_only=True)
-        k.validate_profile("rel_kf", 150, monitors_only=True, known=("F17",))
-        k.validate_profile("kf_f17", 1, monitors_only=True, known=("F17",))
+        k.model_check("MC_Rel", mc_consts(ops=3, **REL), inv, props)
+        k.must_find("MC_Rel_F8", mc_consts(ops=4, impl="ImplF8", **REL), inv)
+        k.must_find("MC_Rel_F17", mc_consts(ops=5, impl="ImplF17", **REL), inv)
+        k.validate_profile("rel", 350)
+        k.validate_profile("rel_kf", 100, known=("F17",))
+        k.validate_profile("rel_vis", 100, known=("F17",))
+        k.validate_profile("kf_f17", 1, known=("F17",))
     else:
         k.model_check("MC_Struct", mc_consts(ops=5, **struct), inv, props, timeout=3000)
         k.model_check("MC_Struct2", mc_consts(ents=("e1", "e2"), ops=4, kinds=("spawn", "despawn", "insert", "remove"), ticks=2, idle=1), inv, props, timeout=3000)
@@ -34,10 +41,16 @@ def main(tier, seed, replay):
         k.validate_profile("core2", 1500)
         k.validate_profile("vis_black", 1500)
         k.validate_profile("vis_white", 1500)
-        k.validate_profile("rel", 2500, monitors_only=True)
-        k.validate_profile("rel_kf", 1500, monitors_only=True, known=("F17",))
-        k.validate_profile("kf_f17", 1, monitors_only=True, known=("F17",))
+        k.model_check("MC_Rel", mc_consts(ops=5, **REL), inv, props, timeout=3000)
+        k.model_check("MC_Rel3", mc_consts(ops=4, **dict(REL, ents=("e1", "e2", "e3"))), inv, props, timeout=3000)
+        k.must_find("MC_Rel_F8", mc_consts(ops=4, impl="ImplF8", **REL), inv)
+        k.must_find("MC_Rel_F17", mc_consts(ops=5, impl="ImplF17", **REL), inv)
+        k.validate_profile("rel", 2500)
+        k.validate_profile("rel_split", 1000)
+        k.validate_profile("rel_kf", 1500, known=("F17",))
+        k.validate_profile("rel_vis", 1500, known=("F17",))
+        k.validate_profile("kf_f17", 1, known=("F17",))
     k.selftest(tr)
     return k.finish(assumptions=[
         "the structure expected at the client's update tick is the recorded per-tick snapshot of the real server world restricted to what was visible to that client",
-        "placeholder entities for references to unreplicated entities are allowed (relations are exercised by the rel profiles)"])
+        "placeholder entities for references to unreplicated entities are allowed; relations (ChildOf) are part of the specification: relate / unrelate / hierarchy despawn are model-checked (MC_Rel) and the rel profiles are validated with full conformance"])
